@@ -95,7 +95,10 @@ Example repaired_finish_after_error :
   maximal = true /\ results s = [RErr E_INVALID_DATA; RErr E_OTHER] /\ all_exited s = true /\ dropped s = true.
 Proof. vm_compute. auto. Qed.
 
+(* the worker is inside the window (it saw closed == false and holds the mutex); the repaired
+   close() waits for the mutex, so the worker is asleep when notify_all runs *)
 Example repaired_lost_wakeup :
-  let s := run f_ok rd1 (init rd1 [] [OpDrop]) (sched_lost_wakeup ++ [Co 0; Co 0; Wk 0; Wk 0; Wk 0; Co 0; Co 0; Co 0]) in
-  stuck f_ok rd1 s = true /\ all_exited s = true /\ dropped s = true.
+  let s0 := run f_ok rd1 (init rd1 [] [OpDrop]) [Wk 0; Wk 0; Wk 0; Wk 0] in
+  let '(s, maximal) := run_auto f_ok rd1 s0 true 200 in
+  ws s0 = [WWait] /\ maximal = true /\ all_exited s = true /\ dropped s = true.
 Proof. vm_compute. auto. Qed.
